@@ -6,6 +6,7 @@ mod c13;
 mod c16;
 mod c17;
 mod c18;
+mod c19;
 mod he;
 mod project;
 mod psets;
@@ -68,6 +69,7 @@ fn main() {
         "c08" => c08::main(&args[2..]),
         "c17" => c17::main(&args[2..]),
         "c18" => c18::main(&args[2..]),
+        "c19" => c19::main(&args[2..]),
         "c13" => c13::main(&args[2..]),
         "c09" => c09::main(&args[2..]),
         "c11" => c11::main(&args[2..]),
